@@ -83,6 +83,8 @@ where
     Wait {
         tx: oneshot::Sender<()>,
     },
+    /// The blocks were cleaned (`destroy`): what this flusher wrote into its current block is dead, start the block over.
+    Reset,
 }
 
 impl<K, V, P> Debug for Submission<K, V, P>
@@ -112,6 +114,7 @@ where
                 f.debug_struct("Reinsertion").field("reinsertion", reinsertion).finish()
             }
             Self::Wait { .. } => f.debug_struct("Wait").finish(),
+            Self::Reset => f.debug_struct("Reset").finish(),
         }
     }
 }
@@ -455,6 +458,9 @@ where
                 }
             }
             Submission::Wait { tx } => self.waiters.push(tx),
+            // Without this, the next batch continues the open blob: its index page is rewritten with the entries written
+            // before the blocks were cleaned, and a recovery indexes them again.
+            Submission::Reset => self.ctx.reset(),
         }
     }
 
